@@ -1,6 +1,1016 @@
-//! C18 -- monitor (to be written)
-use crate::fw::ctx;
+//! C18 -- rank-decomposition trees (`quizx::rankwidth`).
+//!
+//! Events: DecompTree::random_decomp on a generated graph, then a history of moves
+//! {swap_random_leaves, random_local_swap, move_random_subtree}, each driven by a seeded
+//! `rand` generator; RankwidthAnnealer::run over a parameter grid; the rank_decomp wrapper.
+//! After the construction and after EVERY move the harness checks:
+//!   1. no panic;
+//!   2. structure, read from the public `nodes` / `leaves` / `interior` fields only: leaf
+//!      labels are exactly the graph's vertices (bijection), interior nodes have three
+//!      distinct neighbours, adjacency symmetric, connected, |E| = |N| - 1, index lists
+//!      consistent with the node array;
+//!   3. is_valid_for_graph() == true;
+//!   4. rankwidth()/rankwidth_score() on the tree as it is (cache in whatever state the
+//!      history left it) == the same on a clone after clear_ranks() == brute force: for every
+//!      tree edge the harness computes the leaf bipartition by its own traversal and the rank
+//!      over F2 of the biadjacency matrix with `oracle::f2` (adjacency taken from the
+//!      generator's edge list, not from quizx);
+//!   5. every cache entry visible through rank(e) belongs to a current tree edge and holds
+//!      that edge's current cut rank (the invariant in the property's `state` anchor).
+//! Annealer: returns without panic, result passes 2-4, brute-force width(result) <=
+//! brute-force width(initial tree).
+
+use crate::fw::{ctx, guarded, par_cases, Caught};
+use crate::gen::prng::Rng;
+use crate::oracle::f2::F2;
+use quizx::graph::{EType, GraphLike, VType, V};
+use quizx::rankwidth::annealer::RankwidthAnnealer;
+use quizx::rankwidth::decomp_tree::{DecompNode, DecompTree};
+use rand::rngs::{SmallRng, StdRng};
+use rand::{RngCore, SeedableRng};
+use serde_json::{json, Value};
+use std::collections::BTreeMap;
+
+// ----------------------------------------------------------------------------------------
+// rand generators handed to the code under test
+// ----------------------------------------------------------------------------------------
+
+pub enum AnyRng {
+    Small(SmallRng),
+    Std(StdRng),
+    /// the harness's own xoshiro256** behind the RngCore interface
+    Own(Rng),
+}
+
+pub const RNG_KINDS: [&str; 3] = ["SmallRng", "StdRng", "harness-xoshiro"];
+
+impl AnyRng {
+    pub fn new(kind: usize, seed: u64) -> AnyRng {
+        match kind {
+            0 => AnyRng::Small(SmallRng::seed_from_u64(seed)),
+            1 => AnyRng::Std(StdRng::seed_from_u64(seed)),
+            _ => AnyRng::Own(Rng::new(seed)),
+        }
+    }
+}
+
+impl RngCore for AnyRng {
+    fn next_u32(&mut self) -> u32 {
+        match self {
+            AnyRng::Small(r) => r.next_u32(),
+            AnyRng::Std(r) => r.next_u32(),
+            AnyRng::Own(r) => (r.next_u64() >> 32) as u32,
+        }
+    }
+    fn next_u64(&mut self) -> u64 {
+        match self {
+            AnyRng::Small(r) => r.next_u64(),
+            AnyRng::Std(r) => r.next_u64(),
+            AnyRng::Own(r) => r.next_u64(),
+        }
+    }
+    fn fill_bytes(&mut self, dst: &mut [u8]) {
+        match self {
+            AnyRng::Small(r) => r.fill_bytes(dst),
+            AnyRng::Std(r) => r.fill_bytes(dst),
+            AnyRng::Own(r) => {
+                for ch in dst.chunks_mut(8) {
+                    let b = r.next_u64().to_le_bytes();
+                    ch.copy_from_slice(&b[..ch.len()]);
+                }
+            }
+        }
+    }
+}
+
+fn pick_seed(r: &mut Rng) -> u64 {
+    match r.below(8) {
+        0 => 0,
+        1 => u64::MAX,
+        2 => r.below(100) as u64,
+        _ => r.next_u64(),
+    }
+}
+
+// ----------------------------------------------------------------------------------------
+// graphs
+// ----------------------------------------------------------------------------------------
+
+#[derive(Clone, Debug)]
+pub struct GDesc {
+    pub class: &'static str,
+    pub n: usize,
+    /// edges over abstract vertices 0..n, a < b, no duplicates
+    pub edges: Vec<(usize, usize)>,
+    /// 0 vec_graph, 1 vec_graph with removed vertices between the kept ones, 2 hash_graph
+    pub backend: usize,
+    /// with backend 1: total number of slots and which slots are kept (len n, increasing)
+    pub slots: Vec<usize>,
+    pub total_slots: usize,
+    /// decoration that must not matter: vertex colours and edge types
+    pub deco: u64,
+}
+
+pub const BACKENDS: [&str; 3] = ["vec", "vec-with-holes", "hash"];
+
+impl GDesc {
+    fn to_json(&self) -> Value {
+        json!({"class": self.class, "n": self.n, "edges": self.edges, "backend": BACKENDS[self.backend], "slots": self.slots, "total_slots": self.total_slots, "deco": self.deco})
+    }
+    fn hash(&self) -> u64 {
+        let mut h = 0xcbf29ce484222325u64 ^ (self.n as u64) ^ ((self.backend as u64) << 8);
+        for &(a, b) in &self.edges {
+            h = (h ^ ((a * 64 + b) as u64)).wrapping_mul(0x100000001b3);
+        }
+        for &s in &self.slots {
+            h = (h ^ (s as u64 + 1000)).wrapping_mul(0x100000001b3);
+        }
+        h
+    }
+    /// Build as a quizx graph; returns the quizx id of every abstract vertex.
+    fn build<G: GraphLike>(&self) -> (G, Vec<V>) {
+        let mut g = G::new();
+        let mut all = vec![];
+        for k in 0..self.total_slots {
+            let ty = if (self.deco >> (k % 60)) & 1 == 1 { VType::X } else { VType::Z };
+            all.push(g.add_vertex(ty));
+        }
+        let ids: Vec<V> = self.slots.iter().map(|&s| all[s]).collect();
+        for (k, &(a, b)) in self.edges.iter().enumerate() {
+            let et = if (self.deco.rotate_left(17) >> (k % 60)) & 1 == 1 { EType::H } else { EType::N };
+            g.add_edge_with_type(ids[a], ids[b], et);
+        }
+        for k in 0..self.total_slots {
+            if !self.slots.contains(&k) {
+                g.remove_vertex(all[k]);
+            }
+        }
+        (g, ids)
+    }
+}
+
+pub const CLASSES: [&str; 13] = [
+    "edgeless",
+    "complete",
+    "path",
+    "cycle",
+    "star",
+    "gnp-sparse",
+    "gnp-half",
+    "gnp-dense",
+    "complete-bipartite",
+    "random-tree",
+    "union-of-cliques",
+    "single-edge",
+    "perfect-matching",
+];
+
+fn finish_graph(r: &mut Rng, class: &'static str, n: usize, mut raw: Vec<(usize, usize)>) -> GDesc {
+    // random relabelling so that structure is not aligned with vertex order
+    let mut perm: Vec<usize> = (0..n).collect();
+    r.shuffle(&mut perm);
+    for e in raw.iter_mut() {
+        let (a, b) = (perm[e.0], perm[e.1]);
+        *e = (a.min(b), a.max(b));
+    }
+    raw.sort();
+    raw.dedup();
+    raw.retain(|e| e.0 != e.1);
+    let backend = r.below(3);
+    let (slots, total) = if backend == 1 {
+        let extra = 1 + r.below(5);
+        let total = n + extra;
+        let mut pos: Vec<usize> = (0..total).collect();
+        r.shuffle(&mut pos);
+        let mut keep: Vec<usize> = pos[..n].to_vec();
+        keep.sort();
+        (keep, total)
+    } else {
+        ((0..n).collect(), n)
+    };
+    GDesc { class, n, edges: raw, backend, slots, total_slots: total, deco: r.next_u64() }
+}
+
+fn gen_graph(r: &mut Rng, max_n: usize) -> GDesc {
+    // n = 2..4 is also covered exhaustively by the family history-all-small-graphs
+    let n = match r.below(20) {
+        0 => 2,
+        1 => 3,
+        2 => 4,
+        _ => 2 + r.below(max_n - 1),
+    };
+    let class = CLASSES[r.below(CLASSES.len())];
+    gen_graph_with(r, class, n)
+}
+
+fn gen_graph_with(r: &mut Rng, class: &'static str, n: usize) -> GDesc {
+    let mut e = vec![];
+    let gnp = |r: &mut Rng, p: f64| {
+        let mut e = vec![];
+        for a in 0..n {
+            for b in a + 1..n {
+                if r.chance(p) {
+                    e.push((a, b));
+                }
+            }
+        }
+        e
+    };
+    match class {
+        "edgeless" => {}
+        "complete" => e = gnp(r, 2.0),
+        "path" => e = (0..n - 1).map(|i| (i, i + 1)).collect(),
+        "cycle" => {
+            e = (0..n - 1).map(|i| (i, i + 1)).collect();
+            if n >= 3 {
+                e.push((0, n - 1));
+            }
+        }
+        "star" => e = (1..n).map(|i| (0, i)).collect(),
+        "gnp-sparse" => e = gnp(r, 0.15),
+        "gnp-half" => e = gnp(r, 0.5),
+        "gnp-dense" => e = gnp(r, 0.85),
+        "complete-bipartite" => {
+            let k = 1 + r.below(n - 1);
+            for a in 0..k {
+                for b in k..n {
+                    e.push((a, b));
+                }
+            }
+        }
+        "random-tree" => e = (1..n).map(|i| (r.below(i), i)).collect(),
+        "union-of-cliques" => {
+            let parts = 1 + r.below(3.min(n));
+            let col: Vec<usize> = (0..n).map(|_| r.below(parts)).collect();
+            for a in 0..n {
+                for b in a + 1..n {
+                    if col[a] == col[b] {
+                        e.push((a, b));
+                    }
+                }
+            }
+        }
+        "single-edge" => e.push((0, 1)),
+        _ => e = (0..n / 2).map(|i| (2 * i, 2 * i + 1)).collect(),
+    }
+    finish_graph(r, class, n, e)
+}
+
+/// The harness's own view of the graph: adjacency masks over abstract vertices, keyed by V.
+struct GraphOracle {
+    n: usize,
+    adj: Vec<u64>,
+    verts_sorted: Vec<V>,
+    index_of: BTreeMap<V, usize>,
+}
+
+impl GraphOracle {
+    fn new(d: &GDesc, ids: &[V]) -> GraphOracle {
+        let mut adj = vec![0u64; d.n];
+        for &(a, b) in &d.edges {
+            adj[a] |= 1 << b;
+            adj[b] |= 1 << a;
+        }
+        let mut vs = ids.to_vec();
+        vs.sort();
+        GraphOracle { n: d.n, adj, verts_sorted: vs, index_of: ids.iter().enumerate().map(|(k, &v)| (v, k)).collect() }
+    }
+    /// rank over F2 of the biadjacency matrix between `side` and its complement
+    fn cut_rank(&self, side: u64) -> usize {
+        let rows: Vec<u64> = (0..self.n).filter(|&a| (side >> a) & 1 == 1).map(|a| self.adj[a] & !side).collect();
+        F2 { rows: rows.len(), cols: self.n, r: rows }.rank()
+    }
+}
+
+// ----------------------------------------------------------------------------------------
+// the harness's reading of a tree
+// ----------------------------------------------------------------------------------------
+
+fn tree_json(t: &DecompTree) -> Value {
+    json!({
+        "nodes": t.nodes.iter().map(|n| match n {
+            DecompNode::Leaf([p], v) => json!({"leaf": v, "nb": [p]}),
+            DecompNode::Interior(nb) => json!({"nb": nb}),
+        }).collect::<Vec<_>>(),
+        "leaves": t.leaves,
+        "interior": t.interior,
+    })
+}
+
+fn nbrs(n: &DecompNode) -> Vec<usize> {
+    match n {
+        DecompNode::Leaf([p], _) => vec![*p],
+        DecompNode::Interior(nb) => nb.to_vec(),
+    }
+}
+
+/// Structural well-formedness; Err((tag for the signature, explanation)).
+fn check_structure(t: &DecompTree, go: &GraphOracle) -> Result<(), (&'static str, String)> {
+    let nn = t.nodes.len();
+    let n = go.n;
+    if nn != 2 * n - 2 {
+        return Err(("node-count", format!("{nn} nodes for {n} vertices, a cubic tree has {}", 2 * n - 2)));
+    }
+    let mut labels = vec![];
+    let mut leaf_idx = vec![];
+    let mut int_idx = vec![];
+    for (i, node) in t.nodes.iter().enumerate() {
+        match node {
+            DecompNode::Leaf(_, v) => {
+                labels.push(*v);
+                leaf_idx.push(i);
+            }
+            DecompNode::Interior(_) => int_idx.push(i),
+        }
+    }
+    let mut l = t.leaves.clone();
+    l.sort();
+    if l != leaf_idx {
+        return Err(("leaves-index-list", format!("`leaves` = {:?} but the leaf nodes are {leaf_idx:?}", t.leaves)));
+    }
+    let mut l = t.interior.clone();
+    l.sort();
+    if l != int_idx {
+        return Err(("interior-index-list", format!("`interior` = {:?} but the interior nodes are {int_idx:?}", t.interior)));
+    }
+    labels.sort();
+    if labels != go.verts_sorted {
+        return Err(("leaves-not-bijective-with-vertices", format!("leaf labels {labels:?} vs graph vertices {:?}", go.verts_sorted)));
+    }
+    let mut deg_sum = 0;
+    for (i, node) in t.nodes.iter().enumerate() {
+        let nb = nbrs(node);
+        deg_sum += nb.len();
+        for &j in &nb {
+            if j >= nn {
+                return Err(("neighbour-out-of-range", format!("node {i} lists neighbour {j}")));
+            }
+            if j == i {
+                return Err(("self-neighbour", format!("node {i} lists itself")));
+            }
+        }
+        if nb.len() == 3 && (nb[0] == nb[1] || nb[0] == nb[2] || nb[1] == nb[2]) {
+            return Err(("interior-neighbours-not-distinct", format!("node {i} has neighbours {nb:?}")));
+        }
+    }
+    for (i, node) in t.nodes.iter().enumerate() {
+        for j in nbrs(node) {
+            if !nbrs(&t.nodes[j]).contains(&i) {
+                return Err(("adjacency-asymmetric", format!("{i} lists {j} but {j} does not list {i}")));
+            }
+        }
+    }
+    if deg_sum != 2 * (nn - 1) {
+        return Err(("edge-count", format!("{} half-edges for {nn} nodes", deg_sum)));
+    }
+    let mut seen = vec![false; nn];
+    let mut stack = vec![0usize];
+    seen[0] = true;
+    while let Some(i) = stack.pop() {
+        for j in nbrs(&t.nodes[i]) {
+            if !seen[j] {
+                seen[j] = true;
+                stack.push(j);
+            }
+        }
+    }
+    if seen.iter().any(|s| !s) {
+        return Err(("disconnected", format!("nodes {:?} not reachable from node 0", seen.iter().enumerate().filter(|(_, s)| !**s).map(|(i, _)| i).collect::<Vec<_>>())));
+    }
+    Ok(())
+}
+
+/// Brute-force cut ranks of a structurally valid tree: edge (i<j) -> rank.
+fn brute_ranks(t: &DecompTree, go: &GraphOracle) -> BTreeMap<(usize, usize), usize> {
+    let mut out = BTreeMap::new();
+    for i in 0..t.nodes.len() {
+        for j in nbrs(&t.nodes[i]) {
+            if i < j {
+                // leaves on i's side when the edge {i,j} is removed
+                let mut side = 0u64;
+                let mut stack = vec![(i, j)];
+                while let Some((x, from)) = stack.pop() {
+                    if let DecompNode::Leaf(_, v) = &t.nodes[x] {
+                        side |= 1u64 << go.index_of[v];
+                    }
+                    for y in nbrs(&t.nodes[x]) {
+                        if y != from {
+                            stack.push((y, x));
+                        }
+                    }
+                }
+                out.insert((i, j), go.cut_rank(side));
+            }
+        }
+    }
+    out
+}
+
+fn width_score(b: &BTreeMap<(usize, usize), usize>) -> (usize, usize) {
+    (b.values().copied().max().unwrap_or(0), b.values().map(|r| r * r).sum())
+}
+
+// ----------------------------------------------------------------------------------------
+// observation after construction / after a move
+// ----------------------------------------------------------------------------------------
+
+struct Obs<'a, G: GraphLike> {
+    family: &'static str,
+    index: u64,
+    g: &'a G,
+    go: &'a GraphOracle,
+    ctx_json: &'a Value,
+}
+
+#[derive(Default)]
+struct Stats(BTreeMap<String, u64>);
+impl Stats {
+    fn add(&mut self, k: &str, n: u64) {
+        *self.0.entry(k.to_string()).or_default() += n;
+    }
+    fn flush(self) {
+        for (k, v) in self.0 {
+            ctx().count(&k, v);
+        }
+    }
+}
+
+impl<G: GraphLike> Obs<'_, G> {
+    fn viol(&self, sig: &str, what: &str, history: &[&'static str], before: Option<&DecompTree>, after: &DecompTree, extra: Value) {
+        ctx().violation(
+            sig,
+            self.family,
+            self.index,
+            json!({"what": what, "case": self.ctx_json, "moves_so_far": history, "number_of_moves": history.len(),
+                   "tree_before_last_move": before.map(tree_json), "tree_now": tree_json(after), "extra": extra}),
+        );
+    }
+
+    /// All checks on the tree as it is now. `kind` names the operation that produced it.
+    /// Returns false if anything fired (the caller stops the history to avoid cascades).
+    fn observe(&self, kind: &str, t: &DecompTree, history: &[&'static str], before: Option<&DecompTree>, st: &mut Stats) -> bool {
+        let c = ctx();
+        if let Err((tag, why)) = check_structure(t, self.go) {
+            self.viol(&format!("{kind}|structure|{tag}"), "tree is not a cubic tree over the graph's vertices", history, before, t, json!(why));
+            return false;
+        }
+        match guarded(|| t.is_valid_for_graph(self.g)) {
+            Ok(true) => {}
+            Ok(false) => {
+                self.viol(&format!("{kind}|is_valid_for_graph-false"), "is_valid_for_graph() is false on a structurally valid tree", history, before, t, json!(null));
+                return false;
+            }
+            Err(Caught::Oracle(m)) => {
+                c.inconclusive("oracle-error", json!({"msg": m}));
+                return false;
+            }
+            Err(p) => {
+                self.viol(&format!("is_valid_for_graph|panic|{}", p.site()), "panic", history, before, t, json!(p.text()));
+                return false;
+            }
+        }
+        let brute = brute_ranks(t, self.go);
+        let (bw, bs) = width_score(&brute);
+        let nn = t.nodes.len();
+        // cache entries visible through rank(e), on a clone so the real cache is untouched
+        // (does not stop the observation: the reported width/score below is the property's own clause)
+        let mut probe = t.clone();
+        let mut cached = 0;
+        let mut stale = false;
+        for i in 0..nn {
+            for j in i + 1..nn {
+                if let Some(rk) = probe.rank((i, j)) {
+                    cached += 1;
+                    match brute.get(&(i, j)) {
+                        None => {
+                            self.viol(
+                                &format!("{kind}|stale-cache-entry|key-is-not-a-tree-edge"),
+                                "the rank cache holds an entry for a pair of nodes that is not an edge of the current tree",
+                                history, before, t, json!({"pair": [i, j], "cached_rank": rk}),
+                            );
+                            stale = true;
+                        }
+                        Some(&b) if b != rk => {
+                            self.viol(
+                                &format!("{kind}|stale-cache-entry|wrong-rank-for-current-edge"),
+                                "the rank cache holds a value that is not the cut rank of that edge's current bipartition",
+                                history, before, t, json!({"edge": [i, j], "cached_rank": rk, "brute_force_rank": b}),
+                            );
+                            stale = true;
+                        }
+                        _ => {}
+                    }
+                }
+            }
+        }
+        st.add(
+            if cached == 0 { "cache-state-at-observation:empty" } else if cached == brute.len() { "cache-state-at-observation:full" } else { "cache-state-at-observation:partial" },
+            1,
+        );
+        // reported values: tree as is (clone carries the cache), cleared clone, brute force
+        let mut as_is = t.clone();
+        let mut cleared = t.clone();
+        let r = guarded(|| {
+            let w = as_is.rankwidth(self.g);
+            let s = as_is.rankwidth_score(self.g);
+            cleared.clear_ranks();
+            let w2 = cleared.rankwidth(self.g);
+            let s2 = cleared.rankwidth_score(self.g);
+            (w, s, w2, s2)
+        });
+        let (w, s, w2, s2) = match r {
+            Ok(x) => x,
+            Err(Caught::Oracle(m)) => {
+                c.inconclusive("oracle-error", json!({"msg": m}));
+                return false;
+            }
+            Err(p) => {
+                self.viol(&format!("rankwidth|panic|{}", p.site()), "panic in rankwidth()/rankwidth_score()", history, before, t, json!(p.text()));
+                return false;
+            }
+        };
+        st.add("width-comparisons", 1);
+        if stale {
+            st.add(if w != w2 || s != s2 { "stale-cache-entry:visible-in-reported-width-or-score" } else { "stale-cache-entry:not-visible-in-reported-values" }, 1);
+        }
+        let vals = json!({"cached": {"width": w, "score": s}, "after_clear_ranks": {"width": w2, "score": s2}, "brute_force": {"width": bw, "score": bs},
+                          "brute_force_cut_ranks": brute.iter().map(|(e, r)| json!([e.0, e.1, r])).collect::<Vec<_>>()});
+        let mut ok = true;
+        if w2 != bw {
+            self.viol("rankwidth|recomputed-differs-from-brute-force", "rankwidth() after clear_ranks() != brute-force width", history, before, t, vals.clone());
+            ok = false;
+        }
+        if s2 != bs {
+            self.viol("rankwidth_score|recomputed-differs-from-brute-force", "rankwidth_score() after clear_ranks() != brute-force score", history, before, t, vals.clone());
+            ok = false;
+        }
+        if w != w2 {
+            self.viol(&format!("{kind}|cached-rankwidth-differs-from-recomputed"), "rankwidth() from the incrementally invalidated cache != recomputed from scratch", history, before, t, vals.clone());
+            ok = false;
+        }
+        if s != s2 {
+            self.viol(&format!("{kind}|cached-score-differs-from-recomputed"), "rankwidth_score() from the incrementally invalidated cache != recomputed from scratch", history, before, t, vals.clone());
+            ok = false;
+        }
+        c.maximum("max_width_seen", bw as u64);
+        ok && !stale
+    }
+}
+
+fn panic_cond(e: &Caught, n: usize, edgeless: bool) -> &'static str {
+    let txt = e.text();
+    if txt.contains("NaN") || txt.contains("outside range") || txt.contains("InvalidProbability") {
+        if edgeless {
+            "edgeless-graph"
+        } else {
+            "graph-with-edges"
+        }
+    } else if n == 2 {
+        "two-vertex-graph"
+    } else {
+        "three-or-more-vertices"
+    }
+}
+
+/// One signature per root cause: keyed by where the panic is raised (file + message) and the
+/// condition on the input, NOT by the entry point through which it was reached (a panic in
+/// swap_random_leaves is the same defect whether a history, the annealer or rank_decomp
+/// called it). The entry point is counted (`panic-entry:*`) and kept in the detail.
+fn panic_sig(entry: &str, e: &Caught, n: usize, edgeless: bool) -> String {
+    ctx().count(&format!("panic-entry:{entry}"), 1);
+    let site = e.site();
+    let (file, msg) = site.split_once(':').unwrap_or((site.as_str(), ""));
+    format!("{file}|panic:{msg}|{}", panic_cond(e, n, edgeless))
+}
+
+pub const MOVES: [&str; 3] = ["swap_random_leaves", "random_local_swap", "move_random_subtree"];
+
+/// weights (leaf swap, local swap, subtree move)
+const PROFILES: [(&str, [usize; 3]); 5] = [
+    ("uniform", [1, 1, 1]),
+    ("annealer-1-4-5", [1, 4, 5]),
+    ("leaf-swap-heavy", [6, 1, 1]),
+    ("local-swap-heavy", [1, 6, 1]),
+    ("no-subtree-move", [1, 1, 0]), // move_random_subtree clears the whole cache; without it entries live long
+];
+
+struct HistoryPlan {
+    rng_kind: usize,
+    decomp_seed: u64,
+    move_seed: u64,
+    len: usize,
+    profile: usize,
+    /// probability of also querying the real tree after a move (fills its cache)
+    query_p: f64,
+    first_move: Option<usize>,
+}
+
+fn run_history<G: GraphLike>(family: &'static str, index: u64, r: &mut Rng, gd: &GDesc, plan: &HistoryPlan) {
+    let c = ctx();
+    let mut st = Stats::default();
+    let (g, ids): (G, Vec<V>) = gd.build();
+    let go = GraphOracle::new(gd, &ids);
+    let edgeless = gd.edges.is_empty();
+    let cj = json!({"graph": gd.to_json(), "vertex_ids": ids, "rng": RNG_KINDS[plan.rng_kind], "decomp_seed": plan.decomp_seed, "move_seed": plan.move_seed,
+                    "profile": PROFILES[plan.profile].0, "query_probability": plan.query_p, "planned_moves": plan.len});
+    let obs = Obs { family, index, g: &g, go: &go, ctx_json: &cj };
+    let mut drng = AnyRng::new(plan.rng_kind, plan.decomp_seed);
+    let mut tree = match guarded(|| DecompTree::random_decomp(&g, &mut drng)) {
+        Ok(t) => t,
+        Err(Caught::Oracle(m)) => {
+            c.inconclusive("oracle-error", json!({"msg": m}));
+            return;
+        }
+        Err(p) => {
+            c.violation(&panic_sig("random_decomp", &p, gd.n, edgeless), family, index, json!({"what": "panic", "entry_point": "DecompTree::random_decomp", "case": cj, "panic": p.text()}));
+            return;
+        }
+    };
+    st.add("op:random_decomp", 1);
+    let mut history: Vec<&'static str> = vec![];
+    let mut effective = 0u64;
+    let mut ok = obs.observe("random_decomp", &tree, &history, None, &mut st);
+    let mut mrng = AnyRng::new(plan.rng_kind, plan.move_seed);
+    let w = PROFILES[plan.profile].1;
+    let wsum: usize = w.iter().sum();
+    let mut step = 0;
+    while ok && step < plan.len {
+        let kind = match (step, plan.first_move) {
+            (0, Some(k)) => k,
+            _ => {
+                let mut x = r.below(wsum);
+                let mut k = 0;
+                while x >= w[k] {
+                    x -= w[k];
+                    k += 1;
+                }
+                k
+            }
+        };
+        let name = MOVES[kind];
+        let before = tree.clone();
+        let res = guarded(|| match kind {
+            0 => tree.swap_random_leaves(&mut mrng),
+            1 => tree.random_local_swap(&mut mrng),
+            _ => tree.move_random_subtree(&mut mrng),
+        });
+        history.push(name);
+        st.add(&format!("move:{name}"), 1);
+        match res {
+            Ok(()) => {}
+            Err(Caught::Oracle(m)) => {
+                c.inconclusive("oracle-error", json!({"msg": m}));
+                break;
+            }
+            Err(p) => {
+                obs.viol(&panic_sig(name, &p, gd.n, edgeless), &format!("panic in DecompTree::{name}"), &history, Some(&before), &tree, json!(p.text()));
+                break;
+            }
+        }
+        if tree.nodes != before.nodes {
+            st.add(&format!("move-changed-the-tree:{name}"), 1);
+            effective += 1;
+        }
+        ok = obs.observe(name, &tree, &history, Some(&before), &mut st);
+        if ok && r.chance(plan.query_p) {
+            // the real tree answers a query, so its cache fills up as it would in the annealer
+            let (bw, bs) = width_score(&brute_ranks(&tree, &go));
+            match guarded(|| (tree.rankwidth(&g), tree.rankwidth_score(&g))) {
+                Ok((w_, s_)) => {
+                    st.add("queries-on-the-live-tree", 1);
+                    if w_ != bw || s_ != bs {
+                        obs.viol(&format!("{name}|live-tree-query-differs-from-brute-force"), "rankwidth()/score on the live tree != brute force", &history, Some(&before), &tree,
+                            json!({"observed": [w_, s_], "brute_force": [bw, bs]}));
+                        ok = false;
+                    }
+                }
+                Err(Caught::Oracle(m)) => c.inconclusive("oracle-error", json!({"msg": m})),
+                Err(p) => {
+                    obs.viol(&format!("rankwidth|panic|{}", p.site()), "panic", &history, Some(&before), &tree, json!(p.text()));
+                    ok = false;
+                }
+            }
+        }
+        step += 1;
+    }
+    st.add(&format!("graphs:class:{}", gd.class), 1);
+    st.add(&format!("graphs:n={:02}", gd.n), 1);
+    st.add(&format!("graphs:backend:{}", BACKENDS[gd.backend]), 1);
+    st.add(&format!("histories:rng:{}", RNG_KINDS[plan.rng_kind]), 1);
+    st.add(&format!("histories:profile:{}", PROFILES[plan.profile].0), 1);
+    c.maximum("max_history_length", history.len() as u64);
+    st.flush();
+    let nontrivial = gd.n >= 4 && !edgeless && effective >= 1;
+    c.case(family, if nontrivial { Some(gd.hash() ^ plan.decomp_seed.rotate_left(7) ^ plan.move_seed.rotate_left(29) ^ (history.len() as u64) << 50) } else { None });
+    c.sample_n(4, || json!({"family": family, "index": index, "case": cj, "moves": history.len(), "moves_that_changed_the_tree": effective}));
+}
+
+fn dispatch_history(family: &'static str, index: u64, r: &mut Rng, gd: &GDesc, plan: &HistoryPlan) {
+    if gd.backend == 2 {
+        run_history::<quizx::hash_graph::Graph>(family, index, r, gd, plan)
+    } else {
+        run_history::<quizx::vec_graph::Graph>(family, index, r, gd, plan)
+    }
+}
+
+// ----------------------------------------------------------------------------------------
+// annealer
+// ----------------------------------------------------------------------------------------
+
+#[derive(Clone, Copy, Debug)]
+struct AnnealParams {
+    iterations: usize,
+    init_temp: f64,
+    min_temp: f64,
+    cooling: f64,
+    adaptive: bool,
+    /// true: RankwidthAnnealer::new (draws its own initial tree); false: new_with_decomp
+    ctor_new: bool,
+    defaults: bool,
+}
+
+const G_ITER: [usize; 5] = [0, 1, 30, 200, 1000];
+const G_T0: [f64; 3] = [0.1, 5.0, 100.0];
+const G_TMIN: [f64; 3] = [0.001, 0.05, 1.0];
+const G_COOL: [f64; 3] = [0.5, 0.95, 1.0];
+
+fn grid_size() -> usize {
+    G_ITER.len() * G_T0.len() * G_TMIN.len() * G_COOL.len() * 2
+}
+
+fn grid_point(mut k: usize) -> AnnealParams {
+    let it = G_ITER[k % G_ITER.len()];
+    k /= G_ITER.len();
+    let t0 = G_T0[k % 3];
+    k /= 3;
+    let tm = G_TMIN[k % 3];
+    k /= 3;
+    let co = G_COOL[k % 3];
+    k /= 3;
+    AnnealParams { iterations: it, init_temp: t0, min_temp: tm, cooling: co, adaptive: k % 2 == 0, ctor_new: true, defaults: false }
+}
+
+fn run_annealer<G: GraphLike>(family: &'static str, index: u64, gd: &GDesc, p: AnnealParams, rng_kind: usize, seed: u64, seed2: u64) {
+    let c = ctx();
+    let mut st = Stats::default();
+    let (g, ids): (G, Vec<V>) = gd.build();
+    let go = GraphOracle::new(gd, &ids);
+    let edgeless = gd.edges.is_empty();
+    let cj = json!({"graph": gd.to_json(), "vertex_ids": ids, "rng": RNG_KINDS[rng_kind], "seed": seed, "init_decomp_seed": seed2,
+                    "params": {"iterations": p.iterations, "init_temp": p.init_temp, "min_temp": p.min_temp, "cooling_rate": p.cooling, "adaptive_cooling": p.adaptive,
+                               "constructor": if p.ctor_new { "new" } else { "new_with_decomp" }, "library_defaults": p.defaults}});
+    let obs = Obs { family, index, g: &g, go: &go, ctx_json: &cj };
+    let built = guarded(|| {
+        let mut a = if p.ctor_new {
+            RankwidthAnnealer::new(g.clone(), AnyRng::new(rng_kind, seed))
+        } else {
+            let init = DecompTree::random_decomp(&g, &mut AnyRng::new(rng_kind, seed2));
+            RankwidthAnnealer::new_with_decomp(g.clone(), init, AnyRng::new(rng_kind, seed))
+        };
+        if !p.defaults {
+            a.set_iterations(p.iterations).set_init_temp(p.init_temp).set_min_temp(p.min_temp).set_cooling_rate(p.cooling).set_adaptive_cooling(p.adaptive);
+        }
+        a
+    });
+    let mut ann = match built {
+        Ok(a) => a,
+        Err(Caught::Oracle(m)) => {
+            c.inconclusive("oracle-error", json!({"msg": m}));
+            return;
+        }
+        Err(e) => {
+            c.violation(&panic_sig("annealer.new", &e, gd.n, edgeless), family, index, json!({"what": "panic", "entry_point": "RankwidthAnnealer::new / new_with_decomp", "case": cj, "panic": e.text()}));
+            return;
+        }
+    };
+    if !p.defaults && (ann.iterations() != p.iterations || ann.init_temp() != p.init_temp || ann.min_temp() != p.min_temp || ann.cooling_rate() != p.cooling || ann.adaptive_cooling() != p.adaptive) {
+        c.violation("annealer.setters|getter-disagrees-with-setter", family, index, json!({"case": cj}));
+    }
+    let init = ann.init_decomp().clone();
+    if !obs.observe("annealer.init_decomp", &init, &[], None, &mut st) {
+        st.flush();
+        return;
+    }
+    let (w0, _s0) = width_score(&brute_ranks(&init, &go));
+    let res = guarded(|| ann.run());
+    st.add("op:annealer.run", 1);
+    st.add(&format!("annealer:iterations={:04}", if p.defaults { 1000 } else { p.iterations }), 1);
+    st.add(&format!("annealer:adaptive={}", if p.defaults { true } else { p.adaptive }), 1);
+    st.add(&format!("annealer:constructor={}", if p.ctor_new { "new" } else { "new_with_decomp" }), 1);
+    st.add(&format!("annealer-graphs:class:{}", gd.class), 1);
+    st.add(&format!("annealer-graphs:n={:02}", gd.n), 1);
+    let mut nontrivial = false;
+    match res {
+        Err(Caught::Oracle(m)) => c.inconclusive("oracle-error", json!({"msg": m})),
+        Err(e) => {
+            obs.viol(&panic_sig("annealer.run", &e, gd.n, edgeless), "RankwidthAnnealer::run panicked", &[], None, &init, json!(e.text()));
+        }
+        Ok(out) => {
+            if obs.observe("annealer.run", &out, &[], Some(&init), &mut st) {
+                let (w1, _s1) = width_score(&brute_ranks(&out, &go));
+                st.add(if w1 < w0 { "annealer:width-improved" } else { "annealer:width-equal" }, u64::from(w1 <= w0));
+                if w1 > w0 {
+                    obs.viol("annealer.run|width-larger-than-initial", "the returned decomposition is wider than the starting tree", &[], Some(&init), &out,
+                        json!({"initial_width_brute_force": w0, "returned_width_brute_force": w1}));
+                }
+                nontrivial = gd.n >= 4 && !edgeless && (p.defaults || p.iterations >= 1);
+            }
+        }
+    }
+    st.flush();
+    c.case(family, if nontrivial { Some(gd.hash() ^ seed.rotate_left(11) ^ ((p.iterations as u64) << 40) ^ (p.cooling.to_bits() >> 3) ^ p.init_temp.to_bits().rotate_left(9) ^ p.min_temp.to_bits().rotate_left(23) ^ (p.adaptive as u64)) } else { None });
+    c.sample_n(6, || json!({"family": family, "index": index, "case": cj, "initial_width": w0}));
+}
+
+// ----------------------------------------------------------------------------------------
+// run
+// ----------------------------------------------------------------------------------------
+
+fn self_test() -> Result<(), String> {
+    // the harness's cut-rank on a hand-built tree: path a-b-c-d, tree ((a,b),(c,d))
+    let gd = GDesc { class: "path", n: 4, edges: vec![(0, 1), (1, 2), (2, 3)], backend: 0, slots: vec![0, 1, 2, 3], total_slots: 4, deco: 0 };
+    let (g, ids): (quizx::vec_graph::Graph, Vec<V>) = gd.build();
+    if g.num_vertices() != 4 || g.num_edges() != 3 {
+        return Err("graph builder".into());
+    }
+    let go = GraphOracle::new(&gd, &ids);
+    let mut t = DecompTree::new();
+    t.add_interior([1, 2, 3]); // 0
+    t.add_interior([0, 4, 5]); // 1
+    t.add_leaf(0, ids[0]); // 2
+    t.add_leaf(0, ids[1]); // 3
+    t.add_leaf(1, ids[2]); // 4
+    t.add_leaf(1, ids[3]); // 5
+    check_structure(&t, &go).map_err(|e| format!("structure check rejects a good tree: {e:?}"))?;
+    let b = brute_ranks(&t, &go);
+    let expect: BTreeMap<(usize, usize), usize> = [((0, 1), 1), ((0, 2), 1), ((0, 3), 1), ((1, 4), 1), ((1, 5), 1)].into_iter().collect();
+    if b != expect {
+        return Err(format!("brute ranks on the path: {b:?}"));
+    }
+    // K_{2,2} split the bad way has cut rank 2 only if the sides are not twins: C4 a-b-c-d-a, tree ((a,b),(c,d)) -> middle cut {a,b}|{c,d}: a~d, b~c -> rank 2
+    let gd2 = GDesc { class: "cycle", n: 4, edges: vec![(0, 1), (1, 2), (2, 3), (0, 3)], backend: 0, slots: vec![0, 1, 2, 3], total_slots: 4, deco: 0 };
+    let go2 = GraphOracle::new(&gd2, &ids);
+    if go2.cut_rank(0b0011) != 2 || go2.cut_rank(0b0101) != 1 || go2.cut_rank(0b0001) != 1 || go2.cut_rank(0) != 0 {
+        return Err("cut ranks of C4".into());
+    }
+    // broken trees must be rejected
+    let mut bad = t.clone();
+    bad.nodes[1] = DecompNode::Interior([0, 4, 4]);
+    if check_structure(&bad, &go).is_ok() {
+        return Err("structure check accepts a repeated neighbour".into());
+    }
+    let mut bad = t.clone();
+    bad.nodes[5] = DecompNode::Leaf([1], ids[2]);
+    if check_structure(&bad, &go).is_ok() {
+        return Err("structure check accepts a repeated leaf label".into());
+    }
+    let mut bad = t.clone();
+    bad.nodes[4] = DecompNode::Leaf([0], ids[2]);
+    if check_structure(&bad, &go).is_ok() {
+        return Err("structure check accepts asymmetric adjacency".into());
+    }
+    Ok(())
+}
 
 pub fn run() {
-    ctx().harness_error("C18 monitor not implemented yet");
+    let c = ctx();
+    if let Err(e) = crate::oracle::f2::self_test() {
+        c.harness_error(&format!("f2 oracle self-test failed: {e}"));
+        return;
+    }
+    if let Err(e) = self_test() {
+        c.harness_error(&format!("C18 harness self-test failed: {e}"));
+        return;
+    }
+    let t = c.tier;
+    c.set_rule(
+        "cases = (graph, rng kind, seeds, move history) and (graph, annealer parameters, seed); evaluations counts cases, counters count every move and every width comparison; a history case is non-trivial when the graph has >= 4 vertices (all three moves are enabled), at least one edge, and at least one move changed the tree; an annealer case when n >= 4, the graph has an edge and iterations >= 1; distinct = distinct hashes of (graph, backend, seeds, length / parameters)",
+    );
+    c.assume("cut ranks are judged by oracle O5/f2 over bipartitions computed by the harness's own traversal of the public `nodes` array; graph adjacency is taken from the generator's edge list, not from quizx");
+    c.assume("'arbitrary random seeds' = rand::SmallRng / rand::StdRng / an xoshiro256** RngCore seeded with arbitrary u64 (0, u64::MAX, small, random); degenerate non-random sources (e.g. a constant stream, on which move_random_subtree would retry forever) are not valid generators and are not used");
+    c.assume("annealer parameter settings explored: iterations {0,1,30,200,1000}, init_temp {0.1,5,100}, min_temp {0.001,0.05,1}, cooling_rate {0.5,0.95,1.0}, adaptive on/off, both constructors, plus library defaults; temperatures <= 0 and cooling > 1 are treated as invalid settings and not used");
+    c.assume("the cache invariant of the property's `state` anchor (entries only for current edges with current partitions) is observed through the public rank(e) accessor on a clone");
+    c.assume("rank_decomp() draws from the thread-local generator and is therefore not bit-for-bit replayable; its cases are judged only on the returned tree");
+
+    // ---- all graphs on 2..=4 (quick) / 2..=5 (thorough) vertices, every first move ----
+    let small_max = t.pick(4usize, 5usize);
+    let seeds_per = t.pick(6usize, 12usize);
+    let mut offs = vec![0usize];
+    for n in 2..=small_max {
+        offs.push(offs.last().unwrap() + (1usize << (n * (n - 1) / 2)) * 3 * seeds_per);
+    }
+    let total_small = *offs.last().unwrap();
+    let offs2 = offs.clone();
+    par_cases("history-all-small-graphs", total_small, move |r, i| {
+        let s = offs2.iter().rposition(|&o| o <= i as usize).unwrap();
+        let n = 2 + s;
+        let mut k = i as usize - offs2[s];
+        let first = k % 3;
+        k /= 3;
+        let seed_ix = k % seeds_per;
+        k /= seeds_per;
+        let mask = k;
+        let mut edges = vec![];
+        let mut bit = 0;
+        for a in 0..n {
+            for b in a + 1..n {
+                if (mask >> bit) & 1 == 1 {
+                    edges.push((a, b));
+                }
+                bit += 1;
+            }
+        }
+        let gd = GDesc { class: "all-small", n, edges, backend: seed_ix % 3, slots: if seed_ix % 3 == 1 { (1..=n).collect() } else { (0..n).collect() }, total_slots: if seed_ix % 3 == 1 { n + 2 } else { n }, deco: r.next_u64() };
+        let plan = HistoryPlan { rng_kind: (seed_ix / 3) % 3, decomp_seed: seed_ix as u64, move_seed: r.next_u64(), len: 25, profile: 0, query_p: [1.0, 0.3, 0.0][(seed_ix + first) % 3], first_move: Some(first) };
+        dispatch_history("history-all-small-graphs", i, r, &gd, &plan);
+    });
+    c.extra(
+        "small_graphs_exhaustive",
+        json!({"what": "every labelled graph on n vertices x each of the 3 moves as first move x seeds", "n_range": [2, small_max], "seeds_per_graph_and_first_move": seeds_per,
+               "cases": total_small, "cases_run": c.get_count("op:random_decomp"), "completed": c.get_count("op:random_decomp") as usize == total_small && c.replay.is_none()}),
+    );
+
+    // ---- random histories ----
+    let (n_hist, max_len) = t.pick((8_000usize, 200usize), (300_000usize, 200usize));
+    par_cases("history", n_hist, move |r, i| {
+        let gd = gen_graph(r, 14);
+        let plan = HistoryPlan {
+            rng_kind: r.below(3),
+            decomp_seed: pick_seed(r),
+            move_seed: pick_seed(r),
+            len: if r.chance(0.2) { max_len.min(200) } else { r.below(max_len + 1) },
+            profile: r.below(PROFILES.len()),
+            query_p: *r.pick(&[0.0, 0.3, 1.0]),
+            first_move: None,
+        };
+        dispatch_history("history", i, r, &gd, &plan);
+    });
+
+    // ---- annealer with library defaults on every graph class, smallest sizes first ----
+    let n_def = t.pick(CLASSES.len() * 9 * 2, CLASSES.len() * 9 * 12);
+    par_cases("annealer-defaults", n_def, move |r, i| {
+        // index-driven: class = i % 13, n grows with i so the smallest witness has the smallest index
+        let want_class = CLASSES[i as usize % CLASSES.len()];
+        let want_n = 2 + (i as usize / CLASSES.len()) % 9;
+        let gd = gen_graph_with(r, want_class, want_n);
+        let p = AnnealParams { iterations: 1000, init_temp: 5.0, min_temp: 0.01, cooling: 0.95, adaptive: true, ctor_new: (i as usize / (CLASSES.len() * 9)) % 2 == 0, defaults: true };
+        let (k, s, s2) = (r.below(3), pick_seed(r), pick_seed(r));
+        if gd.backend == 2 {
+            run_annealer::<quizx::hash_graph::Graph>("annealer-defaults", i, &gd, p, k, s, s2)
+        } else {
+            run_annealer::<quizx::vec_graph::Graph>("annealer-defaults", i, &gd, p, k, s, s2)
+        }
+    });
+
+    // ---- annealer: the grid, each point several times ----
+    let reps = t.pick(6usize, 60usize);
+    let gs = grid_size();
+    par_cases("annealer-grid", gs * reps, move |r, i| {
+        let mut p = grid_point(i as usize % gs);
+        p.ctor_new = r.chance(0.5);
+        let mut gd = gen_graph(r, if p.iterations >= 1000 { 9 } else { 14 });
+        gd.backend = if gd.backend == 1 { 1 } else { r.below(3) };
+        if gd.backend != 1 {
+            gd.slots = (0..gd.n).collect();
+            gd.total_slots = gd.n;
+        }
+        let (k, s, s2) = (r.below(3), pick_seed(r), pick_seed(r));
+        if gd.backend == 2 {
+            run_annealer::<quizx::hash_graph::Graph>("annealer-grid", i, &gd, p, k, s, s2)
+        } else {
+            run_annealer::<quizx::vec_graph::Graph>("annealer-grid", i, &gd, p, k, s, s2)
+        }
+    });
+    c.extra("annealer_grid", json!({"points": gs, "repetitions_per_point": reps, "iterations": G_ITER, "init_temp": G_T0, "min_temp": G_TMIN, "cooling_rate": G_COOL, "adaptive_cooling": [true, false]}));
+
+    // ---- the public wrapper rank_decomp (thread-local generator) ----
+    let n_wrap = t.pick(80usize, 1_000usize);
+    par_cases("rank_decomp-wrapper", n_wrap, move |r, i| {
+        let c = ctx();
+        let mut st = Stats::default();
+        let mut gd = gen_graph(r, 8);
+        gd.backend = 0;
+        gd.slots = (0..gd.n).collect();
+        gd.total_slots = gd.n;
+        let (g, ids): (quizx::vec_graph::Graph, Vec<V>) = gd.build();
+        let go = GraphOracle::new(&gd, &ids);
+        let cj = json!({"graph": gd.to_json(), "vertex_ids": ids, "note": "rank_decomp uses rand::rng(); outcome may differ between runs"});
+        let obs = Obs { family: "rank_decomp-wrapper", index: i, g: &g, go: &go, ctx_json: &cj };
+        match guarded(|| quizx::rankwidth::rank_decomp(&g)) {
+            Ok(tree) => {
+                obs.observe("rank_decomp", &tree, &[], None, &mut st);
+            }
+            Err(Caught::Oracle(m)) => c.inconclusive("oracle-error", json!({"msg": m})),
+            Err(e) => c.violation(
+                &panic_sig("rank_decomp", &e, gd.n, gd.edges.is_empty()),
+                "rank_decomp-wrapper",
+                i,
+                json!({"what": "rank_decomp panicked", "entry_point": "rankwidth::rank_decomp", "case": cj, "panic": e.text()}),
+            ),
+        }
+        st.add("op:rank_decomp", 1);
+        st.add(&format!("wrapper-graphs:class:{}", gd.class), 1);
+        st.flush();
+        c.case("rank_decomp-wrapper", if gd.n >= 4 && !gd.edges.is_empty() { Some(gd.hash() ^ 0x77) } else { None });
+    });
 }
